@@ -10,20 +10,6 @@ The `use_phf` code path is related to this one by C16 (`phf_same_result`).
 -/
 namespace Strum
 
-theorem inj_of_nodup_map {α β : Type} (f : α → β) (l : List α) (h : (l.map f).Nodup) :
-    ∀ a ∈ l, ∀ b ∈ l, f a = f b → a = b := by
-  induction l with
-  | nil => intro a ha; simp at ha
-  | cons x xs ih =>
-    simp only [List.map_cons, List.nodup_cons, List.mem_map, not_exists, not_and] at h
-    intro a ha b hb hab
-    simp only [List.mem_cons] at ha hb
-    rcases ha with rfl | ha <;> rcases hb with rfl | hb
-    · rfl
-    · exact absurd hab.symm (h.1 b hb)
-    · exact absurd hab (h.1 a ha)
-    · exact ih h.2 a ha b hb hab
-
 theorem phf_nil_of_nophf (d : EnumDef) (h : d.usePhf = false) (vs : List Variant) :
     vs.flatMap (phfOfVariant d) = [] := by
   induction vs with
